@@ -277,6 +277,21 @@ static void cmd_lb(char** t, int n) {
 static void cmd_mapinit(char** t, int n) { (void)n; { int lg = zv_map_init_log((unsigned)strtoul(t[1], 0, 10)); if (lg < 0) printf("ERR\n"); else printf("%d\n", lg); } }
 static void cmd_maphash(char** t, int n) { (void)n; printf("%u\n", zv_map_hash((unsigned)strtoul(t[1], 0, 10), (unsigned)strtoul(t[2], 0, 10))); }
 
+/* mapops size op... : op = a<key> | d<key>; prints "OK v1,v2,.. | k:v k:v ..." (all slots) */
+static void cmd_mapops(char** t, int n) {
+    unsigned size = (unsigned)strtoul(t[1], 0, 10); int nops = n - 2, i, slots;
+    unsigned* keys = (unsigned*)malloc((nops + 1) * sizeof(unsigned)); int* ops = (int*)malloc((nops + 1) * sizeof(int));
+    unsigned* vals = (unsigned*)malloc((nops + 1) * sizeof(unsigned)); unsigned cap = 2 * 4096; unsigned* table = (unsigned*)malloc(cap * sizeof(unsigned));
+    for (i = 0; i < nops; i++) { ops[i] = t[2 + i][0] == 'a'; keys[i] = (unsigned)strtoul(t[2 + i] + 1, 0, 10); }
+    slots = zv_map_ops(size, keys, ops, nops, vals, table, cap);
+    if (slots < 0) { printf("ERR\n"); return; }
+    printf("OK ");
+    for (i = 0; i < nops; i++) printf("%s%u", i ? "," : "", vals[i]);
+    printf(" |");
+    for (i = 0; i < slots && 2 * i + 1 < (int)cap; i++) printf(" %u:%u", table[2 * i], table[2 * i + 1]);
+    printf("\n");
+}
+
 /* oc dictSize : offcodeMax of the real ZDICT_analyzeEntropy */
 static void cmd_oc(char** t, int n) { (void)n; { int m = zv_offcode_max(strtoull(t[1], 0, 10)); if (m == -1) printf("TOOLARGE\n"); else if (m < 0) printf("HARNESS\n"); else printf("OK %d\n", m); } }
 
@@ -297,6 +312,7 @@ static void dispatch(char** t, int n) {
     else if (!strcmp(t[0], "mapinit") && n == 2) cmd_mapinit(t, n);
     else if (!strcmp(t[0], "maphash") && n == 3) cmd_maphash(t, n);
     else if (!strcmp(t[0], "oc") && n == 2) cmd_oc(t, n);
+    else if (!strcmp(t[0], "mapops") && n >= 2) cmd_mapops(t, n);
     else printf("BADCASE\n");
 }
 
